@@ -78,16 +78,20 @@ def run_cli(argv):
     return rc, out.getvalue(), err.getvalue()
 
 
-def run_process(argv):
+def run_process(argv, ioenc=None):
+    """A real `python -m hpl` process; ioenc: encoding of its standard streams (PYTHONIOENCODING), as under another locale."""
     env = dict(os.environ, PYTHONPATH=os.path.join(core.REPO_DIR, 'src'), PYTHONHASHSEED='0')
-    p = subprocess.run([sys.executable, '-m', 'hpl'] + list(argv), capture_output=True, text=True, env=env, timeout=120)
-    return p.returncode, p.stdout, p.stderr
+    if ioenc:
+        env['PYTHONIOENCODING'] = ioenc
+    p = subprocess.run([sys.executable, '-m', 'hpl'] + list(argv), capture_output=True, env=env, timeout=120)
+    enc = ioenc or 'utf-8'
+    return p.returncode, p.stdout.decode(enc, errors='replace'), p.stderr.decode(enc, errors='replace')
 
 
 def sub_cli(inp, process=False):
     """inp: {'mode': 'property'|'file'|'missing-file', 'text', 'json': bool}"""
     mode, text, want_json = inp['mode'], inp['text'], inp['json']
-    runner = run_process if process else run_cli
+    runner = (lambda argv: run_process(argv, inp.get('ioenc'))) if process else run_cli
     with tempfile.TemporaryDirectory(prefix='hplverif-c19-') as d:
         if mode == 'property':
             argv = ['-p', text]
@@ -104,7 +108,7 @@ def sub_cli(inp, process=False):
         if want_json:
             argv = ['-o', 'json'] + argv if inp.get('flag_first', True) else argv + ['--output', 'json']
         rc, out, err = runner(argv)
-    where = f'hpl {" ".join(repr(a) if a == text else a for a in argv)[:300]}' + (' [real process]' if process else '')
+    where = f'hpl {" ".join(repr(a) if a == text else a for a in argv)[:300]}' + (f' [real process{", stdio encoding " + inp["ioenc"] if inp.get("ioenc") else ""}]' if process else '')
     tag = ('process:' if process else '') + mode
     if k == 'ast':
         if rc != 0:
@@ -162,6 +166,28 @@ SPECIAL_PREDS = (
 )  # fmt: skip
 
 
+ENCODING_TABLE = [
+    ('property', 'globally: no t {s = "ünïcödé ☃ ω"}'),
+    ('property', 'globally: some t {s = "日本"} within 1 s'),
+    ('file', '# id: p1\n# title: "ω title"\n# description: "ünï"\nglobally: no a {s = "é"}\n# id: p2\nafter b: some c'),
+]
+
+
+def run_encoding_table(ctx):
+    """Valid inputs with non-ASCII strings, -o json, as a real process whose standard streams use another encoding
+    (a user under another locale): exit status 0 and one valid JSON document, whatever the terminal can represent."""
+    with ctx.timed('encoding-table'):
+        for mode, text in ENCODING_TABLE:
+            for enc in ('ascii', 'cp1252', 'latin-1', 'utf-8'):
+                inp = {'mode': mode, 'text': text, 'json': True, 'kind': 'special', 'flag_first': True, 'ioenc': enc}
+                try:
+                    r = sub_cli_process(inp)
+                except Violation as v:
+                    ctx.report(v)
+                    r = 'violation'
+                ctx.case(('encoding', mode, enc, text), True, f'process:encoding:{enc}:{r}')
+
+
 def gen_case(ch):
     mode = ch.pick(['property'] * 6 + ['file'] * 6 + ['missing-file'])
     want_json = ch.int(0, 2) > 0
@@ -216,6 +242,8 @@ def _nontrivial(inp, r):
 
 
 def shard(ctx, shard_no, nshards, n, n_proc):
+    if shard_no == 0:
+        run_encoding_table(ctx)
     def body(inp):
         r = sub_cli(inp)
         ctx.case((inp['mode'], inp['json'], inp['text']), _nontrivial(inp, r), f'{inp["mode"]}:{r}', sample={'mode': inp['mode'], 'json': inp['json'], 'text': inp['text'][:200]})
